@@ -309,7 +309,7 @@ impl MemcacheBinaryCodec {
     }
 
     fn parse_get_request(&self, src: &mut BytesMut) -> Result<Option<BinaryRequest>, io::Error> {
-        if !self.request_valid(src, true) {
+        if !self.request_valid(src, true, &[0], false) {
             return Err(Error::new(ErrorKind::InvalidData, "Incorrect get request"));
         }
 
@@ -342,7 +342,7 @@ impl MemcacheBinaryCodec {
     }
 
     fn parse_delete_request(&self, src: &mut BytesMut) -> Result<Option<BinaryRequest>, io::Error> {
-        if !self.request_valid(src, true) {
+        if !self.request_valid(src, true, &[0], false) {
             return Err(Error::new(ErrorKind::InvalidData, "Incorrect get request"));
         }
 
@@ -366,7 +366,7 @@ impl MemcacheBinaryCodec {
         &self,
         src: &mut BytesMut,
     ) -> Result<Option<BinaryRequest>, io::Error> {
-        if !self.request_valid(src, false) {
+        if !self.request_valid(src, false, &[0], false) {
             return Err(Error::new(
                 ErrorKind::InvalidData,
                 "Incorrect header only request",
@@ -392,7 +392,7 @@ impl MemcacheBinaryCodec {
     }
 
     fn parse_flush_request(&self, src: &mut BytesMut) -> Result<Option<BinaryRequest>, io::Error> {
-        if !self.request_valid(src, false) {
+        if !self.request_valid(src, false, &[0, 4], false) {
             return Err(Error::new(
                 ErrorKind::InvalidData,
                 "Incorrect Flush request",
@@ -419,7 +419,7 @@ impl MemcacheBinaryCodec {
         &self,
         src: &mut BytesMut,
     ) -> Result<Option<BinaryRequest>, io::Error> {
-        if !self.request_valid(src, true) {
+        if !self.request_valid(src, true, &[0], true) {
             return Err(Error::new(
                 ErrorKind::InvalidData,
                 "Incorrect append/prepend request",
@@ -447,7 +447,7 @@ impl MemcacheBinaryCodec {
         &self,
         src: &mut BytesMut,
     ) -> Result<Option<BinaryRequest>, io::Error> {
-        if !self.request_valid(src, true) {
+        if !self.request_valid(src, true, &[20], false) {
             return Err(Error::new(
                 ErrorKind::InvalidData,
                 "Incorrect inc/dec request",
@@ -506,7 +506,7 @@ impl MemcacheBinaryCodec {
     }
 
     fn parse_set_request(&self, src: &mut BytesMut) -> Result<Option<BinaryRequest>, io::Error> {
-        if !self.request_valid(src, true) {
+        if !self.request_valid(src, true, &[8], true) {
             return Err(Error::new(ErrorKind::InvalidData, "Incorrect set request"));
         }
 
@@ -559,7 +559,26 @@ impl MemcacheBinaryCodec {
         }
     }
 
-    fn request_valid(&self, _src: &mut BytesMut, key_required: bool) -> bool {
+    /// Checks the frame against the shape of its opcode: `extras_allowed` lists
+    /// the extras lengths the opcode may carry, `value_allowed` says whether
+    /// anything may follow extras and key.  The parsers below take extras, key
+    /// and value by these lengths, so a frame of any other shape would leave
+    /// part of its body in the buffer (or take bytes of the next request).
+    fn request_valid(
+        &self,
+        _src: &mut BytesMut,
+        key_required: bool,
+        extras_allowed: &[u8],
+        value_allowed: bool,
+    ) -> bool {
+        if !extras_allowed.contains(&self.header.extras_length) {
+            return false;
+        }
+
+        if !key_required && self.header.key_length != 0 {
+            return false;
+        }
+
         if self.header.extras_length > 20 {
             return false;
         }
@@ -575,6 +594,10 @@ impl MemcacheBinaryCodec {
         if self.header.body_length
             < (self.header.key_length + self.header.extras_length as u16) as u32
         {
+            return false;
+        }
+
+        if !value_allowed && self.get_value_len() != 0 {
             return false;
         }
 
